@@ -96,10 +96,6 @@ In(e, b) == [e EXCEPT !.body = b]
 Witnesses ==
   { [tag |-> "attrListKeyedByQName",
      ss  |-> WithBody(NoCtx, <<In(Lre("", <<>>, <<>>, <<>>, <<>>), <<Att("p", TRUE, V, "1"), Att("q", TRUE, V, "2")>>)>>)],
-    [tag |-> "xmlnsPrefixOnElement", ss |-> WithBody(NoCtx, <<Elt("xmlns", TRUE, U)>>)],
-    [tag |-> "emptyNamespaceAttributeIgnored", ss |-> WithBody([NoCtx EXCEPT !.nsd = <<<<"p", U>>>>], <<Elt("p", TRUE, "")>>)],
-    [tag |-> "xmlPrefixWithOtherNamespace",
-     ss  |-> WithBody(NoCtx, <<In(Lre("", <<>>, <<>>, <<>>, <<>>), <<[i |-> "attribute", p |-> "xml", l |-> "lang", hasNs |-> TRUE, ns |-> U, nsd |-> <<>>, v |-> "1"]>>)>>)],
     [tag |-> "copiedAttributeNotFixedUp",
      ss  |-> WithBody(NoCtx, <<In(Lre("", <<>>, <<>>, <<>>, <<>>), <<[i |-> "copy-of-attr", node |-> 3, a |-> 1]>>)>>)],
     [tag |-> "aliasAppliedToXslAttribute",
